@@ -171,7 +171,9 @@ class Impl:
             vs = [self.exact_vec(t, env) for t in expr.terms]
             return [sum(c) for c in zip(*vs)]
         if isinstance(expr, lz.NegativeMomentum):
-            return self.exact_vec(expr.evaluate(), env)
+            # the meaning of the class, not its implementation: space inversion keeps the energy
+            v = self.exact_vec(expr.args[0], env)
+            return [v[0], -v[1], -v[2], -v[3]]
         if isinstance(expr, ae.ArrayMultiplication):
             *mats, vec = expr.args
             v = sp.Matrix(self.exact_vec(vec, env))
